@@ -114,10 +114,11 @@ class MacRecorder:
 class Wire:
     """socket stand-in: what one side writes the other reads; recv(n) may fragment"""
 
-    def __init__(self, ctx, fragment=False):
+    def __init__(self, ctx, fragment=False, timeouts=0):
         self.ctx, self.fragment = ctx, fragment
         self.buf = b""
         self.nrecv = 0
+        self.timeouts, self.ncalls = timeouts, 0      # the first `timeouts` recv() calls may time out instead of returning data
 
     def send(self, b):
         self.buf = cat(self.buf, b) if len(self.buf) else b
@@ -127,6 +128,10 @@ class Wire:
         avail = len(self.buf)
         if avail == 0:
             return b""
+        self.ncalls += 1
+        if self.ncalls <= self.timeouts and self.ctx.flag("recv-call-%d-times-out" % self.ncalls):
+            import socket
+            raise socket.timeout()
         k = min(n, avail)
         if self.fragment and k > 1 and self.nrecv < 5:       # the first five recv() calls may return short
             self.nrecv += 1
